@@ -273,10 +273,82 @@ func (vc *FuncVC) call(b *ssa.BasicBlock, idx int, ins ssa.Instruction, c *ssa.C
 		}
 		vc.oblige("pre@"+shortCallee(key), r.Label, fmt.Sprintf("precondition of %s (site %d): %s", key, siteNo, r.Raw), pos, reach, t)
 	}
-	if !con.Pure {
+	// iterator with a callback closure: the callback invariant J of the enclosing function's contract is
+	// checked here, the captured variables are havocked, and J is assumed afterwards (with cb_err = the last
+	// error the closure returned)
+	var cbSpec *LoopSpec
+	var cbClosure *ssa.MakeClosure
+	if con.CallbackParam != "" {
+		for i, n := range argNames {
+			if n != con.CallbackParam {
+				continue
+			}
+			ai := i
+			if c.IsInvoke() {
+				ai = i - 1
+			}
+			if ai >= 0 && ai < len(c.Args) {
+				av := c.Args[ai]
+				for {
+					if ct, ok := av.(*ssa.ChangeType); ok {
+						av = ct.X
+						continue
+					}
+					break
+				}
+				if mc, ok := av.(*ssa.MakeClosure); ok {
+					cbClosure = mc
+					if vc.con != nil && vc.con.Callback != nil {
+						cbSpec = vc.con.Callback[closureOrdinal(mc.Fn.(*ssa.Function))]
+					}
+				}
+			}
+		}
+	}
+	var cbMods []modLoc
+	if cbClosure != nil {
+		for _, bnd := range cbClosure.Bindings {
+			if _, ok := under(bnd.Type()).(*types.Pointer); ok {
+				cbMods = append(cbMods, modLoc{kind: "obj", t: vc.val(bnd)})
+			}
+		}
+		if cbSpec != nil {
+			env := &Env{vc: vc, st: st, old: vc.entry, vars: map[string]SVal{"cb_err": {Term{"nil_iface", SIface}, types.Universe.Lookup("error").Type()}}}
+			env.lookup = vc.resolver(defs, b, idx, st, nil, nil)
+			for _, inv := range cbSpec.Invariants {
+				env.ctx = inv.Ctx
+				t, err := env.Bool(inv.Expr)
+				if err != nil {
+					vc.errorf("%s: callback invariant (before the iterator): %v", inv.Where, err)
+					continue
+				}
+				vc.oblige("cb-inv-entry@"+shortCallee(key), inv.Label, "callback invariant holds before the iterator runs: "+inv.Raw, pos, reach, t)
+			}
+		} else {
+			vc.note("callback closure passed to " + key + " has no callback invariant: captured variables are havocked")
+		}
+	}
+	if !con.Pure || len(cbMods) > 0 {
 		mods := vc.evalModifies(con.Modifies, calleeEnv)
+		mods = append(mods, cbMods...)
 		vc.frameCheckMods(b, pos, mods, key)
 		vc.havoc(st, mods, true)
+	}
+	var cbErr Term
+	if cbClosure != nil {
+		cbErr = vc.freshConst("cb_err", SIface)
+		if cbSpec != nil {
+			env := &Env{vc: vc, st: st, old: vc.entry, vars: map[string]SVal{"cb_err": {cbErr, types.Universe.Lookup("error").Type()}}}
+			env.lookup = vc.resolver(defs, b, idx+1, st, nil, nil)
+			for _, inv := range cbSpec.Invariants {
+				env.ctx = inv.Ctx
+				t, err := env.Bool(inv.Expr)
+				if err != nil {
+					continue
+				}
+				vc.assume(reach, t)
+			}
+		}
 	}
 	// results that the contract defines outright (`r == E` with E free of results) become definitions, not
 	// fresh constants with an equation: the solvers then see one term instead of two congruent ones
@@ -301,6 +373,24 @@ func (vc *FuncVC) call(b *ssa.BasicBlock, idx int, ins ssa.Instruction, c *ssa.C
 	for i, n := range con.ResultNames {
 		if i < len(rs) {
 			postVars[n] = SVal{rs[i], rtypes.At(i).Type()}
+		}
+	}
+	if cbErr.S != "" {
+		postVars["cb_err"] = SVal{cbErr, types.Universe.Lookup("error").Type()}
+	}
+	// an error made by errors.New, or by fmt.Errorf with a constant format without %w, wraps nothing:
+	// errors.Is(e, t) holds only for t == e
+	if (key == "fmt.Errorf" || key == "errors.New") && len(rs) == 1 && len(c.Args) > 0 {
+		if f, ok := constString(c.Args[0]); ok && (key == "errors.New" || !strings.Contains(f, "%w")) {
+			vc.tc.Declare("err_is", "(declare-fun err_is (Iface Iface) Bool)")
+			tq := vc.boundVar("t", SIface)
+			vc.assume(reach, Forall([]Term{tq}, Eq(App(SBool, "err_is", rs[0], tq), Eq(tq, rs[0])), App(SBool, "err_is", rs[0], tq)))
+			// the new error value is not yet stored anywhere (it is distinct from every existing sentinel)
+			if _, ok := vc.comps["H:Iface"]; ok {
+				pq := vc.boundVar("p", SRef)
+				hi := vc.cur(st, "H:Iface")
+				vc.assume(reach, Forall([]Term{pq}, Implies(Select(vc.cur(pre, "alloc"), App(SRef, "root", pq), SBool), Not(Eq(Select(hi, pq, SIface), rs[0]))), Select(hi, pq, SIface)))
+			}
 		}
 	}
 	postEnv := &Env{vc: vc, st: st, old: pre, vars: postVars, ctx: con.Ctx}
@@ -496,8 +586,13 @@ func (vc *FuncVC) builtin(b *ssa.BasicBlock, ins ssa.Instruction, bi *ssa.Builti
 		vc.assume(reach, Or(inplace, fresh))
 		vc.assume(reach, vc.sliceWF(res))
 		vc.setVersion(st, "alloc", Ite(Eq(arrR, Null), al, Store(al, arrR, True)))
-		// frame check: in-place append writes the shared backing array
-		if vc.withFrame {
+		// frame check: in-place append writes the shared backing array (a slice held in a variable the closure
+		// captured by reference is the closure's own state: see frameCheckAddr)
+		fromFree := false
+		if u, ok := c.Args[0].(*ssa.UnOp); ok {
+			_, fromFree = u.X.(*ssa.FreeVar)
+		}
+		if vc.withFrame && !fromFree {
 			var goals []Term
 			for _, fr := range vc.activeFrames(b) {
 				goals = append(goals, Or(App(SBool, ">", total, App(SInt, "scap", s)), Eq(m, IntLit(0)), Not(Select(fr.allocPre, App(SRef, "root", App(SRef, "sarr", s)), SBool)),
@@ -726,4 +821,14 @@ func (vc *FuncVC) definedResults(con *Contract, vars map[string]SVal, rtypes *ty
 		}
 	}
 	return out
+}
+
+func closureOrdinal(fn *ssa.Function) int {
+	name := fn.Name()
+	if i := strings.LastIndex(name, "$"); i >= 0 {
+		n := 0
+		fmt.Sscanf(name[i+1:], "%d", &n)
+		return n
+	}
+	return 0
 }
